@@ -1,6 +1,6 @@
 From Coq Require Import Extraction ExtrOcamlBasic ZArith List.
-From LP Require Import Num C11_Model.
+From LP Require Import Num C11_Model C11_Model2.
 Extraction Language OCaml.
 Extraction "C11_m.ml" bracket brent find_minimum_full find_minimum find_maximum
   minimize_general minimize_deltas minimize_delta simplex_of
-  obj_minimize_general obj_minimize_deltas obj_minimize_delta obj_call fresh_call obj_run fresh_run obj_fresh req_call objs_call obj_put objs_put objs_abandon abandoned_call req_given profile_nm1 profile_fmin Z.of_nat Z.to_nat.
+  obj_minimize_general obj_minimize_deltas obj_minimize_delta obj_call fresh_call obj_run fresh_run obj_fresh req_call objs_call obj_put objs_put objs_abandon abandoned_call req_given profile_nm1 profile_fmin default_tol find_minimum_default find_maximum_default Z.of_nat Z.to_nat.
